@@ -72,6 +72,36 @@ Proof.
     rewrite IH by assumption. reflexivity.
 Qed.
 
+(* ---- a trailing separator, a number cut in the middle ---- *)
+(* strings.Fields drops trailing white space: the text of a line followed by any run of separators (blanks, tabs)
+   splits into the same tokens -- a cut right AFTER a separator is the same token prefix as the cut before it *)
+Lemma fields_trailing_spaces toks seps : Forall tok_ok toks -> Forall (fun b => is_space b = true) seps ->
+  fields_of (render_line toks ++ seps) = toks.
+Proof.
+  intros Ht Hs.
+  assert (Hsp : forall cur, fields_acc seps cur = match cur with [] => [] | _ => [rev cur] end).
+  { induction seps as [|b seps IH]; intros cur; [reflexivity|].
+    inversion Hs as [|? ? Hb Hs']; subst. cbn [fields_acc]. rewrite Hb.
+    destruct cur; rewrite (IH Hs'); reflexivity. }
+  unfold fields_of. induction toks as [|t ts IH]; [cbn [render_line app]; apply Hsp|].
+  inversion Ht as [|? ? [Hne Hsp'] Hts]; subst.
+  destruct ts as [|t' ts'].
+  - cbn [render_line]. rewrite fields_acc_tok by assumption. rewrite app_nil_r, Hsp.
+    destruct (rev t) eqn:E; [exfalso; apply (rev_nonempty t Hne E)|]. rewrite <- E, rev_involutive. reflexivity.
+  - change (render_line (t :: t' :: ts')) with (t ++ 32 :: render_line (t' :: ts')).
+    rewrite <- app_assoc. rewrite fields_acc_tok by assumption. cbn [app fields_acc is_space N.eqb Pos.eqb orb].
+    rewrite app_nil_r. destruct (rev t) eqn:E; [exfalso; apply (rev_nonempty t Hne E)|]. rewrite <- E, rev_involutive.
+    rewrite IH by assumption. reflexivity.
+Qed.
+
+(* a number cut in the middle: the line splits into the complete tokens and the shorter spelling [p] that is left
+   (whether [p] still reads as a number is the token parser's business: PVal / PBad of Check.C14) *)
+Lemma fields_partial_token toks p : Forall tok_ok toks -> tok_ok p ->
+  fields_of (render_line (toks ++ [p])) = toks ++ [p].
+Proof.
+  intros Ht Hp. apply fields_render_line. apply Forall_app. split; [assumption|constructor; [assumption|constructor]].
+Qed.
+
 (* ---- prefixes of a rendered line ---- *)
 Lemma render_line_firstn toks : forall m,
   firstn (length (render_line (firstn m toks))) (render_line toks) = render_line (firstn m toks).
